@@ -306,15 +306,33 @@ def ll2_cases(tier, seed):
                 rows[i] = [(c, (F(0) if c == i else v)) for c, v in rows[i]]
             return _crs(n, n, rows)
         both("ilu0", mk)
+    # skyline_lu (default ordering): constructor tables + one solve; n >= 1 (the empty matrix is the known finding
+    # C03-empty-coarse-level-direct-solver-crash)
+    from vcheck import fmt_vec
+    for n, rows in fixed_sq:
+        both("skyline", lambda integer, n=n, rows=rows: "%s %s %s" % (_crs(n, n, rows), fmt_vec([F(i + 1) for i in range(n)]), fmt_vec([F(7)] * n)))
+    for _ in range(N // 2):
+        n = r.choice([1, 2, 3, 4, 6, 9]); kind = r.choice(kinds + ["random", "shuffled"]); st = r.getrandbits(48)
+        def mk(integer, n=n, kind=kind, st=st):
+            r2 = random.Random(st)
+            rows = sq_rows(r2, n, integer, kind)
+            if r2.random() < 0.15:      # an explicit zero entry / a duplicate entry
+                i = r2.randrange(n); rows[i] = rows[i] + [(r2.randrange(n), F(0))]
+            if r2.random() < 0.15:
+                i = r2.randrange(n); c, v = r2.choice(rows[i]); rows[i] = rows[i] + [(c, v + 1)]
+            rv = lambda: [F(r2.randint(-5, 5)) if integer else F(r2.randint(-9, 9), r2.choice([1, 2, 3])) for _ in range(n)]
+            return "%s %s %s" % (_crs(n, n, rows), fmt_vec(rv()), fmt_vec(rv()))
+        both("skyline", mk)
     return out
 
 LL2_WHAT = {"sort_rows": "backend::sort_rows / detail::sort_row (LowLevel2.v; theorems C10_ll2_sort_row, C10_ll2_sort_rows)",
             "saad": "backend::spgemm_saad (LowLevel2G.v; theorem C10_ll2_spgemm_saad)",
-            "plain_aggregates": "coarsening::plain_aggregates (LowLevel2A.v)",
-            "tentative": "coarsening::tentative_prolongation without null space (LowLevel2A.v)",
-            "ilu0": "relaxation::ilu0 constructor (LowLevel2I.v)"}
+            "plain_aggregates": "coarsening::plain_aggregates (LowLevel2A.v; theorem C10_ll2_plain_aggregates)",
+            "tentative": "coarsening::tentative_prolongation without null space (LowLevel2A.v; theorem C10_ll2_tentative)",
+            "ilu0": "relaxation::ilu0 constructor (LowLevel2I.v; theorem C10_ll2_ilu0)",
+            "skyline": "solver::skyline_lu constructor + operator() (LowLevel2K.v; theorems C10_ll2_skyline_build, C10_ll2_skyline_solve)"}
 # double instantiations whose arithmetic is not exact: no model line, the reference is the plain double run
-LL2_NOMODEL = ("lld_ilu0",)
+LL2_NOMODEL = ("lld_ilu0", "lld_skyline")
 
 def run_ll2(ctx, lines):
     def kern(l): return l.split(" ", 2)[1].split("_", 1)[1]
